@@ -396,10 +396,17 @@ fn run_ty<A: Address<V = u64> + std::fmt::Debug>(ty: &str, args: &Args) {
 
 pub fn run(args: &Args) {
     out::set_quiet_cases(true);
-    concrete_guest::run_ty("GuestAddress", args);
-    concrete_region::run_ty("MemoryRegionAddress", args);
-    run_ty::<GuestAddress>("GuestAddress(via trait)", args);
-    run_ty::<MemoryRegionAddress>("MemoryRegionAddress(via trait)", args);
+    // (a panic inside any operation - e.g. an arithmetic overflow in an overflow-checked build - is
+    // a violation of "reports overflow instead of ...", not the end of the monitor)
+    let mut guard = |ty: &str, f: &dyn Fn()| {
+        if let Err(p) = crate::common::guarded(f) {
+            out::viol(&format!("C19/{}/panic/{}", ty, crate::common::panic_sig(&p)), J::s(p));
+        }
+    };
+    guard("GuestAddress", &|| concrete_guest::run_ty("GuestAddress", args));
+    guard("MemoryRegionAddress", &|| concrete_region::run_ty("MemoryRegionAddress", args));
+    guard("GuestAddress(via trait)", &|| run_ty::<GuestAddress>("GuestAddress(via trait)", args));
+    guard("MemoryRegionAddress(via trait)", &|| run_ty::<MemoryRegionAddress>("MemoryRegionAddress(via trait)", args));
     let ops = operands();
     out::sample(jobj! {"type" => "GuestAddress", "a" => ops[ops.len() - 1], "b" => 1u64,
         "checked_add" => J::dbg(&GuestAddress(ops[ops.len() - 1]).checked_add(1)),
